@@ -5,6 +5,7 @@ namespace Epsic.Driver
 open Epsic Epsic.Sim
 
 def hx (f : Float) : String := hexOfFloat f
+def fmax (a b : Float) : Float := if a < b then b else a
 def floats (n : Nat) : Rd (List Float) := listOf n hexFloat
 def stokesF : Rd (Stokes Float) := do
   let l ← floats 4
@@ -25,7 +26,88 @@ def stubCov (cv : Float) (xs : Array Float) (n : Nat) : Mat 4 4 Float := fun i j
 def stubXCov (xs : Array Float) (lag n : Nat) : Mat 4 4 Float := fun i j =>
   sampleXCovEntry (fun l => patternF i j * (if l < xs.size then xs[l]! else 0.0)) lag n (nSqCur n)
 
+/-- a modulated mode as the harness's `make_mode` builds it -/
+inductive ModKind where
+  | plain | lognormal (beta : Float) | boxcar (beta : Float) (w : Nat) | square (beta : Float) (w n : Nat)
+
+def modKind : Rd ModKind := do
+  match (← tok) with
+  | "plain" => pure .plain
+  | "lognormal" => do let b ← hexFloat; pure (.lognormal b)
+  | "boxcar" => do let b ← hexFloat; let w ← nat; pure (.boxcar b w)
+  | "square" => do let b ← hexFloat; let w ← nat; let n ← nat; pure (.square b w n)
+  | _ => perr "mode kind"
+
+/-- `set_beta`: `log_sigma = sqrt( log( beta*beta + 1.0 ) )` -/
+def logSigmaOf (beta : Float) : Float := Float.sqrt (Float.log (beta*beta + 1.0))
+def lnVar (ls : Float) : Float := Float.exp (ls*ls) - 1.0
+def lnFactor (ls g : Float) : Float := Float.exp (lognormalArg ls g)
+
+/-- (mod mean, mod variance) reported by each kind -/
+def modMoments : ModKind → Float × Float
+  | .plain => (1.0, 0.0)
+  | .lognormal b => (1.0, lnVar (logSigmaOf b))
+  | .boxcar b w => (1.0, lnVar (logSigmaOf b) / Float.ofNat w)
+  | .square b _ _ => (1.0, lnVar (logSigmaOf b))
+
+def zero44 : Mat 4 4 Float := fun _ _ => 0.0
+/-- reported cross-covariance of the top mode at instance lag `l` -/
+def kindXCov (k : ModKind) (s : Stokes Float) (l : Nat) : Mat 4 4 Float :=
+  let (mu, var) := modMoments k
+  let cov := match k with | .plain => modeCov s | _ => modulatedCov (modeCov s) s mu var
+  let outerSS : Mat 4 4 Float := fun i j => s i * s j
+  match k with
+  | .plain => if l > 0 then zero44 else cov
+  | .lognormal _ => if l > 0 then zero44 else cov
+  | .boxcar _ w =>
+      if l == 0 && currentLag0Repaired then cov
+      else if l ≥ w then zero44
+      else fun i j => outerSS i j * (Float.ofNat (w - l) / Float.ofNat w * var)
+  | .square _ w n =>
+      if l == 0 && currentLag0Repaired then cov
+      else if l ≥ w then zero44
+      else
+        let table : Array Float := crossCorrelationTable w n
+        fun i j => outerSS i j * (table[l]! * var)
+
 def opsSim : List (String × Rd (List String)) := [
+  ("mod.seq", do
+      let k ← modKind; let m ← nat
+      let rest ← get
+      let devs ← listOf (rest.filter (fun t => !t.startsWith "#")).length hexFloat
+      let dv := devs.toArray
+      match k with
+      | .plain => perr "no modulation"
+      | .lognormal b =>
+          let ls := logSigmaOf b
+          pure (((List.range m).map (fun i => hx (lnFactor ls dv[i]!))) ++ [toString m])
+      | .boxcar b w =>
+          let ls := logSigmaOf b
+          let draws := devs.map (lnFactor ls)
+          let st0 : Boxcar Float := Boxcar.setup w draws
+          let rest := draws.drop (w - 1)
+          let (_, outs) := (List.range m).foldl (fun (acc : Boxcar Float × List Float) i =>
+            let (st, o) := Boxcar.step w acc.1 (rest.getD i 0.0); (st, acc.2 ++ [o])) (st0, [])
+          pure (outs.map hx ++ [toString (w - 1 + m)])
+      | .square b w _ =>
+          let ls := logSigmaOf b
+          let (_, outs, used) := (List.range m).foldl (fun (acc : Hold Float × List Float × Nat) _ =>
+            let (st, o, took) := Hold.step w acc.1 (lnFactor ls (dv.getD acc.2.2 0.0))
+            (st, acc.2.1 ++ [o], if took then acc.2.2 + 1 else acc.2.2)) ((⟨w, 0.0⟩ : Hold Float), [], 0)
+          pure (outs.map hx ++ [toString used])),
+  ("mod.stats", do
+      let s ← stokesF; let k ← modKind; let big ← nat
+      let (mu, var) := modMoments k
+      let cov := match k with | .plain => modeCov s | _ => modulatedCov (modeCov s) s mu var
+      let mean : Stokes Float := match k with | .plain => s | _ => fun i => s i * mu
+      pure ([hx mu, hx var] ++ vecHex mean ++ matHex cov ++ ((List.range (big+1)).flatMap (fun l => matHex (kindXCov k s l))))),
+  ("mod.transform", do
+      let m ← hexFloat; let xr ← hexFloat; let xi ← hexFloat; let yr ← hexFloat; let yi ← hexFloat
+      let e : Spinor Float := ⟨⟨xr, xi⟩, ⟨yr, yi⟩⟩
+      let t := modTransform (Float.sqrt m) e
+      let s0 := Spinor.computeStokes e; let s1 := Spinor.computeStokes t
+      let worst := (List.finRange 4).foldl (fun w i => fmax w (Float.abs (s1 i - m * s0 i) / fmax (Float.abs (m * s0 0)) 1e-300)) 0.0
+      pure ([hx t.x.re, hx t.x.im, hx t.y.re, hx t.y.im, hx worst])),
   ("md.polarizer", do
       let s ← stokesF
       match setStokes fsqrt ordFloat linF s with
